@@ -179,6 +179,16 @@ pub trait T {
     fn t_poll_c(&self, x: u8) -> Poll<Result<&str, CTok>>;
     fn t_opt_c(&self, x: u8) -> Option<Result<&str, CTok>>;
     fn t_tup4_c(&self, x: u8) -> (&Val, CTok, &str, CTok);
+    /// an argument whose `Debug` rendering panics: it may only be rendered when a message about the call is needed
+    fn t_arg(&self, a: NoRender) -> Tok;
+}
+
+/// Rendering this argument is a (user) panic.
+pub struct NoRender(pub u8);
+impl std::fmt::Debug for NoRender {
+    fn fmt(&self, _: &mut std::fmt::Formatter<'_>) -> std::fmt::Result {
+        std::panic::panic_any(crate::universe::UserPanic("debug"))
+    }
 }
 
 #[unimock(api=LMock)]
